@@ -7,7 +7,7 @@ def run(ctx):
     ctx.coverage["rule"] = (
         "request sequences through the real Mux.ServeHTTP under recover (fresh Mux each): the catalogue of every request shape "
         "of the findings D11, D12a-j, D15 and of this slice's probe in three engine states (nothing loaded / scenario / scenario + "
-        "solution set), the listed finding D14c as the last step of a sequence, and mostly-malformed state-aware random walks "
+        "solution set), the repaired finding D14c (YearsOfErosion = 0) as the last step of a sequence, and mostly-malformed state-aware random walks "
         "(empty / header-only / ragged CSV, wrong JSON types, huge numbers, ids beyond the int range, wrong methods and content "
         "types, unmatched paths); outcome class, status, content type, projected body and all read-only resources after every "
         "request compared with the model's.  evaluations = requests compared; distinct_nontrivial = distinct abstract requests")
